@@ -182,7 +182,8 @@ def admission(ck):
                 ck.ob("C09.fifo", fi, c, True, "requests are enqueued at the tail")
             elif a == "popleft":
                 n_pop += 1
-                ck.ob("C09.fifo", fi, c, True, "requests are dequeued from the head")
+                admits = bool(q.stores_to(fi.node, "self.active[]")) or any(q.receiver(c2) == "self" and "self.active" in (eff.writes(q.call_attr(c2)) or ()) for c2 in q.calls(fi.node))
+                ck.ob("C09.fifo", fi, c, admits, "the head of the queue is taken only by the admission loop (elsewhere it would drop a request that is not the caller's)")
             elif a == "remove":
                 ck.ob("C09.fifo", fi, c, fi is ont, "an entry is removed out of order only by its queue timeout")
             elif a in ("pop", "appendleft", "insert", "rotate", "reverse", "extendleft", "sort"):
@@ -270,6 +271,12 @@ def admission(ck):
     )
     ex = ef[ont.cfg.exit.id]
     d3 = ("@unq", True) in ex
+    # ... and what is removed is the entry of *this* key
+    for c in q.find_calls(ont.node, "self.queue.remove"):
+        a0 = c.args[0] if c.args else None
+        a0 = a0 if not isinstance(a0, ast.Name) else next((st_.value for st_ in q.stores_to(ont.node, a0.id) if isinstance(st_, ast.Assign)), a0)
+        ok_key = isinstance(a0, ast.Tuple) and a0.elts and q.dotted(a0.elts[0]) == tkey
+        ck.ob("C09.timeout-dequeues", ont, c, ok_key, "the queue timeout removes the entry of the request that timed out (key %s), not another request's" % tkey)
     d1 = ("@unw", True) in ex
     # D2: admission is conditional on membership in waiting
     gfq = guard_facts(pq, eff)
@@ -365,12 +372,13 @@ def completion(ck):
     # the slot is released on every path that takes the final callback
     for qn, sts in sorted(takes.items()):
         fi = ck.func(SH, qn)
-        ef = event_facts(fi, {"rel": node_calls("self._release")}, cond_facts=False)
+        is_rel = lambda n: node_calls("self._release")(n) or (n.kind == "stmt" and isinstance(n.ast, ast.Assign) and q.dotted(n.ast.value) == "self.release_callback")
+        ef = event_facts(fi, {"rel": is_rel}, cond_facts=False)
         for st in sts:
             nodes = fi.cfg.nodes_for(st)
             before = all(("@rel", True) in ef[n.id] for n in nodes)
             ids = {n.id for n in nodes}
-            bad = _not_followed(fi, lambda n: n.id in ids, node_calls("self._release"))
+            bad = _not_followed(fi, lambda n: n.id in ids, is_rel)
             ck.ob("C09.release-on-complete", fi, st, before or not bad, "the client slot is released (self._release()) on every path on which the final callback is taken")
 
     # the slot is given back only at completion points (functions that take the final callback)
@@ -379,7 +387,8 @@ def completion(ck):
         for c in q.find_calls(f.node, "self._release"):
             n_rel += 1
             ck.ob("C09.release-on-complete", f, c, f.qualname in takes, "self._release() is called only where the fetch completes (or is handed to the redirected fetch); releasing earlier lets more than max_clients requests be in progress")
-    ck.floor("C09.release-on-complete", n_rel, 1, "_release call sites")
+    if n_rel == 0 and not any(qn_ in rtakes for qn_ in takes):
+        ck.floor("C09.release-on-complete", n_rel, 1, "_release call sites")
     # every way a request can end reaches the completion callback
     run_ = ck.func(SH, CONN + ".run")
     body = [st for st in run_.node.body if not (isinstance(st, ast.Expr) and isinstance(st.value, ast.Constant))]
@@ -409,6 +418,13 @@ def completion(ck):
         f = ck.func(SH, qn)
         gf = guard_facts(f, ClassEffects(ck.repo, [(SH, CONN)]))
         hs_ = f.cfg.stmt_nodes(node_calls("self._handle_exception"))
+        if not hs_:
+            # through another method of the connection?
+            others = [c_ for c_ in q.calls(f.node) if q.receiver(c_) == "self" and ck.repo.has_func(SH, CONN + "." + (q.call_attr(c_) or ""))]
+            if any(q.find_calls(ck.repo.func(SH, CONN + "." + q.call_attr(c_)).node, "self._handle_exception") for c_ in others):
+                hs_ = [True]
+            elif others:
+                raise AnalysisError("%s does not call _handle_exception itself; the methods it calls are not followed further" % qn)
         ck.ob("C09.error-completes", f, f.node, len(hs_) >= 1, "%s reports through _handle_exception" % qn, construct="%s calls _handle_exception" % qn)
     fin = ck.func(SH, CONN + ".finish")
 
@@ -446,15 +462,34 @@ def completion(ck):
     # fetch(): one settle per response, only through *_unless_cancelled
     fetch = ck.func(HC, "AsyncHTTPClient.fetch")
     hresp = None
-    for c in q.find_calls(fetch.node, "self.fetch_impl"):
-        if len(c.args) >= 2 and isinstance(c.args[1], ast.Name):
-            nm = c.args[1].id
-            if ck.repo.has_func(HC, "AsyncHTTPClient.fetch.<locals>." + nm):
-                hresp = ck.func(HC, "AsyncHTTPClient.fetch.<locals>." + nm)
-    ck.need(hresp is not None, "fetch does not pass a local response handler to fetch_impl")
     rets = [n for n in q.walk_body(fetch.node) if isinstance(n, ast.Return) and n.value is not None]
     fut = q.dotted(rets[-1].value) if rets else None
     ck.need(fut, "fetch does not return a future variable")
+    for c in q.find_calls(fetch.node, "self.fetch_impl"):
+        if len(c.args) < 2:
+            continue
+        h = c.args[1]
+        if isinstance(h, ast.Name):
+            nm = h.id
+            if ck.repo.has_func(HC, "AsyncHTTPClient.fetch.<locals>." + nm):
+                hresp = ck.func(HC, "AsyncHTTPClient.fetch.<locals>." + nm)
+        elif isinstance(h, ast.Call) and q.call_attr(h) == "partial" and h.args:
+            # the closure became functools.partial(<function>, future, ...): the handler is that function and its
+            # parameter bound to the returned future plays the closure variable's role
+            f0 = h.args[0]
+            cand = None
+            if isinstance(f0, ast.Name) and ck.repo.has_func(HC, f0.id):
+                cand, skip = ck.func(HC, f0.id), 0
+            elif isinstance(f0, ast.Attribute) and q.dotted(f0.value) in ("self", "cls") and ck.repo.has_func(HC, "AsyncHTTPClient." + f0.attr):
+                cand, skip = ck.func(HC, "AsyncHTTPClient." + f0.attr), 1
+            if cand is not None:
+                ps_ = cand.params()[skip:]
+                bound = dict(zip(ps_, h.args[1:]))
+                bound.update({k_.arg: k_.value for k_ in h.keywords if k_.arg})
+                inner = [p_ for p_, v_ in bound.items() if q.dotted(v_) == fut]
+                if len(inner) == 1:
+                    hresp, fut = cand, inner[0]
+    ck.need(hresp is not None, "fetch does not pass a recognisable response handler to fetch_impl")
     ss = settle_sites(hresp)
     ck.floor("C09.fetch-settle", len(ss), 2, "settle sites in the response handler")
     for node, c, p, kind in ss:
@@ -552,6 +587,16 @@ def header_deletions(stmts, hdrs_path: str, bound: Optional[Dict[str, List[str]]
                 # only the first deletion is certain to be attempted
                 inner = header_deletions(st.body[:1], hdrs_path, bound, mod, clsname, depth)
                 out.extend((nm, n, True) for nm, n, _ in inner)
+        elif isinstance(st, ast.If) and not st.orelse and isinstance(st.test, ast.Compare) and len(st.test.ops) == 1 and isinstance(st.test.ops[0], ast.In) and q.dotted(st.test.comparators[0]) == hdrs_path:
+            # `if name in H: del H[name]`  -  deletes exactly when present, cannot fail
+            tested = names_of(st.test.left)
+            inner = header_deletions(st.body, hdrs_path, bound, mod, clsname, depth)
+            for nm, n, _sw in inner:
+                if tested is not None and nm in {t_.lower() for t_ in tested}:
+                    out.append((nm, n, False))
+        elif isinstance(st, (ast.With, ast.AsyncWith)) and len(st.items) == 1 and q.is_call(st.items[0].context_expr, "contextlib.suppress", "suppress") and any((q.dotted(a) or "") in ("KeyError", "LookupError", "Exception") for a in st.items[0].context_expr.args):
+            inner = header_deletions(st.body[:1], hdrs_path, bound, mod, clsname, depth)
+            out.extend((nm, n, True) for nm, n, _ in inner)
         elif isinstance(st, ast.For) and isinstance(st.target, ast.Name) and not st.orelse:
             vals = _const_list(st.iter)
             if vals is None and isinstance(st.iter, ast.Name) and st.iter.id in bound:
@@ -589,6 +634,11 @@ def header_deletions(stmts, hdrs_path: str, bound: Optional[Dict[str, List[str]]
             body = [x for x in h.node.body if not (isinstance(x, ast.Expr) and isinstance(x.value, ast.Constant))]
             inner = header_deletions(body, inner_hdrs[0], b2, mod, clsname, depth - 1)
             out.extend((nm, st, sw) for nm, _n, sw in inner)
+        elif any(q.dotted(x) == hdrs_path for x in ast.walk(st)) and not isinstance(st, (ast.Assert,)):
+            before = len(out)
+            # a statement that touches the headers in a shape that is not understood: the rule cannot claim absence
+            if isinstance(st, (ast.If, ast.For, ast.While, ast.Try, ast.With, ast.AsyncWith, ast.Expr, ast.Delete, ast.Assign, ast.AugAssign)):
+                raise AnalysisError("unrecognised operation on %s: %s" % (hdrs_path, q.unparse(st).split("\n")[0][:80]))
     return out
 
 
@@ -604,6 +654,11 @@ def redirects(ck):
     sfr = ck.func(SH, CONN + "._should_follow_redirect")
     fn = fin.node
     pm = q.parent_map(fn)
+    for c_ in q.calls(fin.node):
+        if q.call_attr(c_) == "fetch" and (q.receiver(c_) or "").endswith("client") and c_.args and (q.dotted(c_.args[0]) or "").startswith("self."):
+            # the request handed to the redirected fetch is (an attribute of) the current request object itself
+            ck.rule("C09.strip-order", "headers and url of the redirected request are not re-assigned after the cross-origin decision, which precedes the new fetch")
+            ck.ob("C09.strip-order", fin, c_, False, "the redirected request is a copy of the current one (its url/headers are edited while the original URL is still needed for the cross-origin decision); here %s itself is re-used" % q.dotted(c_.args[0]))
     nr, fetch_call = _new_request_name(fin)
     hdrs = nr + ".headers"
 
@@ -674,7 +729,15 @@ def redirects(ck):
         raise AnalysisError("cannot see how the redirected fetch's outcome is handed to the original callback")
     # can the redirected fetch's future hold an exception?  (AsyncHTTPClient.fetch's response handler)
     fetch_fi = ck.func(HC, "AsyncHTTPClient.fetch")
-    may_fail = any(k in ("future_set_exception_unless_cancelled", "set_exception", "future_set_exc_info") for x in ast.walk(fetch_fi.node) if isinstance(x, ast.Call) for k in [q.call_attr(x)])
+    scope = [fetch_fi.node]
+    hmod = ck.repo.module(HC)
+    for x in ast.walk(fetch_fi.node):
+        nm_ = x.id if isinstance(x, ast.Name) else (x.attr if isinstance(x, ast.Attribute) and q.dotted(x.value) in ("self", "cls") else None)
+        if nm_:
+            for qn_ in (nm_, "AsyncHTTPClient." + nm_):
+                if qn_ in hmod.funcs and hmod.funcs[qn_].node is not fetch_fi.node:
+                    scope.append(hmod.funcs[qn_].node)
+    may_fail = any(k in ("future_set_exception_unless_cancelled", "set_exception", "future_set_exc_info") for sc in scope for x in ast.walk(sc) if isinstance(x, ast.Call) for k in [q.call_attr(x)])
     for c, cb in regs:
         if isinstance(cb, ast.Lambda):
             prm = cb.args.args[0].arg if cb.args.args else None
@@ -1155,6 +1218,7 @@ MUTANTS = [
     ("queue popped from the tail (LIFO)", _in(SH, CLIENT + "._process_queue", replace_expr(lambda n: isinstance(n, ast.Attribute) and n.attr == "popleft", lambda n: ast.Attribute(value=n.value, attr="pop", ctx=ast.Load()))), "C09.fifo"),
     ("waiting entry made after the queue was processed", _in(SH, CLIENT + ".fetch_impl", _move_waiting_after_process), "C09.enqueue-before-process"),
     ("release does not re-process the queue", _in(SH, CLIENT + "._release_fetch", remove_stmts(lambda st: "_process_queue" in _src(st))), "C09.release"),
+    ("seeded C09-adv4: queue timeout pops the head of the queue instead of removing its own entry", _in(SH, CLIENT + "._on_timeout", replace_expr(lambda n: isinstance(n, ast.Call) and _src(n.func) == "self.queue.remove", lambda n: parse_expr("self.queue.popleft()"))), "C09.fifo"),
     ("queue timeout leaves the request admissible", _in(SH, CLIENT + "._on_timeout", _timeout_forgets), "C09.timeout-dequeues"),
     ("final_callback invoked without clearing", _in(SH, CONN + "._run_callback", remove_stmts(lambda st: isinstance(st, ast.Assign) and _src(st.targets[0]) == "self.final_callback")), "C09.final-callback-tac"),
     ("final_callback scheduled directly", _in(SH, CONN + "._run_callback", replace_stmt(lambda st: isinstance(st, ast.If), lambda st: [parse_stmt("self.io_loop.add_callback(self.final_callback, response)")])), "C09.final-callback-tac"),
